@@ -3,6 +3,7 @@ import MosnVerif.Lemmas.ConfigDir
 import MosnVerif.Lemmas.ConfigPairs2
 import MosnVerif.Lemmas.UpdatesMode
 import MosnVerif.Lemmas.ConfigOrder
+import MosnVerif.Lemmas.ConfigCb
 /-!
 # C19 — configuration survives dump and reload unchanged (property theorems only)
 
@@ -131,6 +132,36 @@ theorem circuitbreakers_fixpoint (th : Shape) (h : shapeOf "Thresholds" = some t
   have hreg : (match shapeOf "Thresholds" with | some sh => keysOK sh | none => false) = true := by decide +kernel
   rw [h] at hreg
   exact cb_fixpoint th hreg w x hU
+
+/-- **circuitbreakers_effective_survive**: MOSN applies one entry of `circuit_breakers` (`Gen.ConfigCb.plan`, regenerated
+from `cluster.NewResourceManager`: entry 0, defaults for an empty list), so the POSITION of every entry is configuration.
+For every wire document the real pair accepts, the dump read back has the same entries — as many, in the same order, with
+the same four limits, entries that set no limit (`{}`, an entry with only members MOSN does not know, `null`) included —
+hence the cluster built from the reloaded dump gets the limits of the running one.  (The fixpoint law above does not say
+this: a dump that drops limit-less entries is a fixpoint of the pair, yet moves another entry to the front.) -/
+theorem circuitbreakers_effective_survive (fs : Fields) (h : shapeOf "Thresholds" = some (.struct fs)) (w : Json) (x : CVal)
+    (hU : cbU (.struct fs) w = some x) :
+    ∃ y, cbU (.struct fs) (cbM (.struct fs) x) = some y ∧ ConfigCb.entries y = ConfigCb.entries x ∧
+      ConfigCb.effective y = ConfigCb.effective x := by
+  have hreg : (match shapeOf "Thresholds" with
+    | some (.struct fs) => keysOKF fs && ConfigCb.allNum fs | _ => false) = true := by decide +kernel
+  rw [h] at hreg
+  simp only [Bool.and_eq_true] at hreg
+  obtain ⟨y, h1, h2⟩ := ConfigCb.cb_entries_survive fs hreg.1 hreg.2 w x hU
+  exact ⟨y, h1, h2, by unfold ConfigCb.effective; rw [h2]⟩
+
+/-- non-vacuity and the witness of what is at stake: `[{"priority":"HIGH"},{…:0,…:0},null]` decodes to three entries, all
+dumped; the first entry is the effective one: `[{}, {max_connections 10, max_retries 3}]` means no limits, without the
+first entry the limits are those of the second -/
+example : (match shapeOf "Thresholds" with
+    | some th =>
+      (match cbU th (.arr [.obj [("priority", .str "HIGH")], .obj [("max_connections", .num "0"), ("max_retries", .num "0")], .null]) with
+      | some x => (ConfigCb.entries x).length == 3 && (cbM th x == .arr [.obj [], .obj [], .obj []])
+      | none => false)
+    | none => false) = true := by decide +kernel
+example : ConfigCb.effectiveOf ConfigCb.thresholdNames Gen.ConfigCb.plan [[0, 0, 0, 0], [10, 0, 0, 3]] = [0, 0, 0, 0] ∧
+    ConfigCb.effectiveOf ConfigCb.thresholdNames Gen.ConfigCb.plan [[10, 0, 0, 3]] = [10, 0, 0, 3] ∧
+    ConfigCb.effectiveOf ConfigCb.thresholdNames Gen.ConfigCb.plan [] = [0, 0, 0, 0] := by decide +kernel
 
 /-- **Listener** over the regenerated `ListenerConfig`: empty address and networks other than tcp / udp / unix are
 rejected, `network` is defaulted and lower-cased by the first `UnmarshalJSON`, the address is replaced by the resolver's
